@@ -106,8 +106,10 @@ example : Reach { init with created := 1, place := upd (upd (upd init.place 0 .o
 /-- assumptions of the transition system about `connection.stop` / `onStopEvent`, read off the source on every run:
 the key is removed from the registry BEFORE the stop signal and the socket close (no command can be queued to a
 connection whose writer has already drained), lookup + enqueue are atomic in the manager, and the stop handler
-empties the whole queue of not-yet-written commands -/
-theorem stop_as_modelled : Gen.stopLeaveBeforeClose = true ∧ Gen.stopDrainsAll = true ∧ Gen.managerOpsInClosure = true := by
+empties the whole queue of not-yet-written commands; one manager goroutine; and the writer never sends on the
+channel only it receives from (`writer_never_blocked` models its own failures as completed in place) -/
+theorem stop_as_modelled : Gen.stopLeaveBeforeClose = true ∧ Gen.stopDrainsAll = true ∧ Gen.managerOpsInClosure = true ∧
+    Gen.managerStartedOnce = true ∧ Gen.writerNoSelfSend = true := by
   decide
 
 end JT.C13
